@@ -451,6 +451,9 @@ def check(prog: Program, rep):
     plumb.whole_flow_shortcuts_rule(prog, rep, "C10.R8")
     cap_premises(prog, rep, "C10.R8", "kFlowDecompCycles", which=("P1",))
     plumb.ignore_list_accumulates(prog, rep, "C10.R8")
+    from rules.c16 import bound_excludes_ignored as _bei
+    from rules.common import RuleProxy as _RPb
+    _bei(prog, _RPb(rep, "C10.R8"), "C16.R8")
     plumb.node_expansion_length_rule(prog, rep, "C10.R8")
     plumb.percentile_rules(prog, rep, "C10.R8")
     from rules.values import python_arithmetic as _pa10
